@@ -15,7 +15,9 @@ LEVEL_TEXT = ("Hashes.tla transcribes the PUBLISHED definitions (lookup2.c mix/h
               "evaluated on the ASan build of the current tree at all 8 alignments, key ending at / starting behind a redzone, after an "
               "adversarial prelude (same address other content, errno, run-time debug level) and, for the empty key, as (NULL, 0) "
               "(39-41 calls per vector). Values recorded from the library on long keys - a size sweep n-1..n+12 around every "
-              "threshold n in 64..12288 for every function - are validated by TLC (HashesTrace.tla).")
+              "threshold n in 64..12288 for every function - are validated by TLC (HashesTrace.tla). Keys of 2^31..2^32-1 bytes "
+              "(MAP_NORESERVE mapping with non-zero islands) are compared with the fold of native copies of the spec's step operators, "
+              "which TLC binds to the spec (OpSteps vectors, FoldLaw).")
 LEVEL_NOTE = ("Equality with the definitions is established on the vectors, not for all keys. lookup2 has no published test vector that "
               "could be used as an anchor: its transcription is cross-checked structurally (three variants agree, mix has the published "
               "inverse) while FNV and one-at-a-time are anchored on published values. Trusted: TLC, the limb arithmetic (anchored against "
